@@ -14,11 +14,13 @@ def outcome(logic, arg, **opts):
     try:
         # the tableau's own build_timeout is only consulted between steps: a hard wall-clock guard covers a single step that
         # does not return
-        with hard_timeout(HARD_SECONDS):
+        guard = None
+        with hard_timeout(HARD_SECONDS) as guard:
             t = Tableau(logic, arg, **opts).build()
     except HardTimeout:
         return 'harness-limit', None
     except Exception as e:
+        if guard is not None and guard.fired: return 'harness-limit', None         # the alarm was replaced by an exception of the code under test
         if type(e).__name__ == 'ProofTimeoutError' and own_limit: return 'harness-limit', None
         return f'exception:{type(e).__name__}', None
     if t.premature: return ('harness-limit' if own_limit else 'limit'), t
